@@ -54,6 +54,7 @@ type Conn struct {
 
 	readTimeout     chan context.Context
 	writeTimeout    chan context.Context
+	lockTimeout     chan struct{}
 	timeoutLoopDone chan struct{}
 
 	// Read state.
@@ -108,6 +109,7 @@ func newConn(cfg connConfig) *Conn {
 
 		readTimeout:     make(chan context.Context),
 		writeTimeout:    make(chan context.Context),
+		lockTimeout:     make(chan struct{}, 1),
 		timeoutLoopDone: make(chan struct{}),
 
 		closed:      make(chan struct{}),
@@ -182,6 +184,14 @@ func (c *Conn) timeoutLoop() {
 
 		case writeCtx = <-c.writeTimeout:
 		case readCtx = <-c.readTimeout:
+
+		case <-c.lockTimeout:
+			// A call gave up waiting for one of the connection's locks because
+			// its context ended. Like any other context expiration that closes
+			// the connection; the call may be holding other locks itself, so it
+			// is done from here.
+			c.close()
+			return
 
 		case <-readCtx.Done():
 			c.close()
@@ -275,6 +285,10 @@ func (m *mu) lock(ctx context.Context) error {
 		return net.ErrClosed
 	case <-ctx.Done():
 		vhook(9, nil, m, 0, 0)
+		select {
+		case m.c.lockTimeout <- struct{}{}:
+		default:
+		}
 		return fmt.Errorf("failed to acquire lock: %w", ctx.Err())
 	case m.ch <- struct{}{}:
 		vhook(1, nil, m, 0, 0)
